@@ -58,6 +58,7 @@ type WorkerSummary struct {
 	Violations  []ViolationReport `json:"violations"`
 	ViolCounts  map[string]int    `json:"viol_counts"`
 	Samples     []json.RawMessage `json:"samples"`
+	Abandoned   int               `json:"abandoned,omitempty"`
 	Recycled    bool              `json:"recycled,omitempty"`
 	NextIndex   int               `json:"next_index,omitempty"`
 	LeakRuns    int               `json:"leak_runs"`
@@ -135,6 +136,14 @@ func TestWorker(t *testing.T) {
 	}
 
 	debug.SetGCPercent(-1)
+	raceMode := os.Getenv("VERIF_RACE") != ""
+	wdTimeout := 90 * time.Second
+	if raceMode {
+		wdTimeout = 20 * time.Second
+	}
+	if raceMode {
+		debug.SetGCPercent(100)
+	}
 	if os.Getenv("VERIF_RACE") == "" {
 		// The lock-step engine pins itself to one P whatever the environment
 		// says: intra-step goroutine order (and with it event numbering) is
@@ -154,7 +163,44 @@ func TestWorker(t *testing.T) {
 		seed := runSeed(base, famName, idx)
 		g := rand.New(rand.NewPCG(seed, 0x5eed))
 		params := fam.Gen(g, tier)
-		res := RunOne(t, fam, params, seed, RunOpts{Strategy: -1})
+		if raceMode {
+			// marker for attributing race reports (which the runtime prints to stderr) to a run
+			fmt.Fprintf(os.Stderr, "\nVERIF-RUN idx=%d i=%d seed=%d\n", idx, i, seed)
+		}
+		wd := time.AfterFunc(wdTimeout, func() {
+			// real-time watchdog outside the bubble: a run that does not finish is
+			// infrastructure trouble (never a violation by timing alone)
+			fmt.Fprintf(os.Stderr, "\nVERIF-WATCHDOG family=%s seed=%d\n", famName, seed)
+			buf := make([]byte, 1<<20)
+			os.Stderr.Write(buf[:runtime.Stack(buf, true)])
+			if raceMode && outPath != "" {
+				// free-running mode cannot see through real mutexes (a goroutine
+				// waiting for a goat lock whose owner waits for a timer stalls the
+				// bubble's clock): abandon this run, keep what was collected, and
+				// let a fresh process continue with the next run
+				sum.Abandoned++
+				sum.Recycled = true
+				sum.NextIndex = i + 1
+				sum.WallS = time.Since(start).Seconds()
+				b, _ := json.Marshal(sum)
+				os.WriteFile(outPath, b, 0o644)
+				os.Exit(0)
+			}
+			os.Exit(3)
+		})
+		var res *RunResult
+		if raceMode {
+			// the testing package fails (and ends) a test in which the race
+			// detector fired: isolate every run in a subtest
+			res = &RunResult{Family: fam.Name, Seed: seed}
+			t.Run("run", func(st *testing.T) { RunOneInto(st, fam, params, seed, RunOpts{Strategy: -1, Free: true}, res) })
+		} else {
+			res = RunOne(t, fam, params, seed, RunOpts{Strategy: -1})
+		}
+		wd.Stop()
+		if res == nil {
+			res = &RunResult{Family: fam.Name, Seed: seed, Infra: "run produced no result"}
+		}
 		sum.Runs++
 		sum.Steps += int64(res.Steps)
 		sum.Yields += res.Yields
@@ -277,10 +323,19 @@ func writeReplay(t *testing.T, fam *Family, prop string, params any, seed, base,
 	if dir == "" {
 		return ""
 	}
-	// 1. record the tape of the failing run; check it reproduces from the seed
-	res, ok := reproduces(t, fam, prop, params, seed, nil, v)
 	rf := &ReplayFile{Property: prop, Class: v.Class, Site: v.Site, Detail: v.Detail, Family: fam.Name,
 		Seed: seed, BaseSeed: base, Run: idx, Tier: tier}
+	if os.Getenv("VERIF_ISOLATED") != "" {
+		// the code under test keeps process-global state that synctest will not
+		// share between bubbles: no second execution in this process. The file
+		// replays from the seed in a fresh process.
+		rf.ReproRate = "not re-executed in-process (isolated mode: one simulated run per process)"
+		pj, _ := json.Marshal(params)
+		rf.Params = pj
+		return saveReplay(dir, rf)
+	}
+	// 1. record the tape of the failing run; check it reproduces from the seed
+	res, ok := reproduces(t, fam, prop, params, seed, nil, v)
 	if !ok {
 		rf.ReproRate = "0/1 (seed re-execution did not reproduce: harness nondeterminism)"
 		pj, _ := json.Marshal(params)
